@@ -92,6 +92,7 @@ inductive Obs where
   | fqueue (q : Nat) (n : Int)
   | crash (msg : String)
   | tick
+  | qtick                                        -- a tick that fired while no goroutine could run (time passing at rest)
   | adapter (g a : Nat) (op : String) (arg : String) (res : List String)   -- one call of the recording adapter
   | recover                                      -- the process died; what follows is a fresh process on the same adapters
   | fadapter (a : Nat) (pending unacked acked : List String)
